@@ -86,10 +86,14 @@ func (x *Exec) evalBuiltin(name string, e *ast.CallExpr, st *State, env *Env) []
 		if !ok {
 			x.abort("%s of non-slice", name)
 		}
+		r := sv.Cap
 		if name == "len" {
-			return []Value{Scalar{sv.Len, intTI}}
+			r = sv.Len
 		}
-		return []Value{Scalar{sv.Cap, intTI}}
+		if x.bvmode {
+			return []Value{Scalar{"((_ int2bv 64) " + r + ")", TInfo{K: TBV, Bits: 64, Signed: true}}}
+		}
+		return []Value{Scalar{r, intTI}}
 	case "panic":
 		x.obl(st, "panic", "panic", e.Pos(), "false", "unreachable: "+x.nodeText(e))
 		st.pc = "false"
@@ -583,7 +587,7 @@ func (x *Exec) findAnchors(body ast.Expr, bound map[types.Object]bool) map[types
 				}
 			}
 			_ = st
-			if !ok || mentions(t.X) {
+			if !ok || mentions(t.X) || x.classify(x.typeOf(t.X)).K == TGhostMap {
 				return true
 			}
 			var terms []signedExpr
